@@ -203,6 +203,31 @@ P = {
             "trusted: vpmon/gen/relational.py reference evaluator; to-one navigation inside "
             "lambda bodies is generated in a reported-only lane (outside the quantifier)",
             "DESIGN.md 2/C04"),
+    "C08": ("M-drv driver-boundary monitor (Django execute_wrapper, SQLAlchemy "
+            "before_cursor_execute): SQL text equality across literal assignments, marker "
+            "absence in text, value presence in parameters",
+            "Exploration by runtime monitoring: filter skeletons of the ORM-supported scalar and "
+            "relational fragments are instantiated with 2..3 assignments of hostile marker values "
+            "and executed through Django, SQLAlchemy ORM (select and legacy Query) and Core; the "
+            "(sql, params) pair observed at the driver must have identical text across "
+            "assignments, contain no marker in the text and carry every value in the parameter "
+            "list (after the backend's own adaptation).",
+            "trusted: the driver hooks see exactly what is handed to sqlite3",
+            "DESIGN.md 2/C08"),
+    "C15": ("reference-model monitor on (base query x filter) products for both ORMs + "
+            "driver-boundary join counter + offline comparison of sqlalchemy.func observations "
+            "across import histories in fresh processes",
+            "Exploration by runtime monitoring: 18 SQLAlchemy and 12 Django base queries "
+            "(filtered, ordered, column subsets, pre-joined by relationship/target/ON, inner and "
+            "outer, unrelated joins, annotated, select_related, Manager vs QuerySet, legacy Query, "
+            "already OData-filtered) x relational filters x instances: the shorthand's id list must "
+            "equal the base's own rows filtered by the reference evaluator (same order for "
+            "ordered bases, same multiplicity), the emitted SQL may join author/country at most "
+            "once; fresh processes per PYTHONHASHSEED compare sqlalchemy.func.<name> (class, "
+            "module, SQLite and PostgreSQL compilation, type) between control / before-import / "
+            "after-import / after-use histories.",
+            "trusted: reference evaluator of vpmon/gen/relational.py; LIMIT/OFFSET bases excluded",
+            "DESIGN.md 2/C15"),
 }
 
 NOT_BUILT_REASON = "check not built yet in this round (design in DESIGN.md section 2); not claimed"
